@@ -198,6 +198,23 @@ def run(ctx):
             out = "raised %s: %s" % (type(e).__name__, str(e)[:100])
         if out != want:
             ctx.violation({"template": src, "rendered": out, "expected": want}, "after a handled exception loop and caller must have their outer values", tags=["c13." + tag])
+    # a cached section whose creation raises: nothing is stored, the stacks are as before, the next call creates it
+    ctx.evaluations += 1
+    calls = [0]
+
+    def boom_once():
+        calls[0] += 1
+        if calls[0] == 1:
+            raise the_error
+        return "ok%d" % calls[0]
+    srcc = ('<%def name="c()" cached="True" cache_type="memory">C${boom_once()}</%def>\\\n% for i in range(3):\n% try:\n${c()}\\\n% except:\nE\\\n% endtry\n% endfor\n'
+            '${"|%d,%d,%s" % (len(context._buffer_stack), len(context.caller_stack), context.caller_stack.nextcaller)}')
+    try:
+        out = Template(srcc).render(boom_once=boom_once)
+    except Exception as e:  # noqa
+        out = "raised %s: %s" % (type(e).__name__, str(e)[:100])
+    if out != "ECok2Cok2|1,1,None":
+        ctx.violation({"template": srcc, "rendered": out, "expected": "ECok2Cok2|1,1,None"}, "an exception while a cached section is created", tags=["c13.cached-section"])
     # format_exceptions: rendered as an error page
     ctx.evaluations += 1
     try:
